@@ -32,7 +32,11 @@ impl Session {
             acc
         });
 
-        let expiry = UNIX_EPOCH.elapsed().unwrap().as_secs() + lifetime;
+        let expiry = UNIX_EPOCH
+            .elapsed()
+            .unwrap()
+            .as_secs()
+            .saturating_add(lifetime);
 
         Self {
             token: token_hex,
@@ -54,6 +58,10 @@ impl Session {
 
     /// Refreshes the token, setting it to expire the given number of seconds after the current time.
     pub fn refresh(&mut self, lifetime: u64) {
-        self.expiry = UNIX_EPOCH.elapsed().unwrap().as_secs() + lifetime;
+        self.expiry = UNIX_EPOCH
+            .elapsed()
+            .unwrap()
+            .as_secs()
+            .saturating_add(lifetime);
     }
 }
